@@ -152,7 +152,7 @@ fn enum_type<'a>(input: &mut &'a [u8]) -> ModalResult<Type<'a>, InputError<&'a [
     literal("(").parse_next(input)?;
     ws(input)?;
     let variant_names: Vec<&str> =
-        separated(0.., field_name, (ws, literal(","), ws)).parse_next(input)?;
+        separated(1.., field_name, (ws, literal(","), ws)).parse_next(input)?;
     ws(input)?;
     literal(")").parse_next(input)?;
 
@@ -164,19 +164,12 @@ fn enum_type<'a>(input: &mut &'a [u8]) -> ModalResult<Type<'a>, InputError<&'a [
 }
 
 /// Parse an inline type (struct or enum).
-/// Determines if it's a struct by looking for ':' character.
+///
+/// A struct has `name: type` fields (or none at all: `()` is the empty struct), an enum has one or
+/// more bare names. Which one it is can only be decided by parsing: a textual look-ahead is misled
+/// by comments and nested types.
 fn inline_type<'a>(input: &mut &'a [u8]) -> ModalResult<Type<'a>, InputError<&'a [u8]>> {
-    // Look ahead to see if this contains a colon (indicating struct)
-    if let Some(pos) = input.iter().position(|&b| b == b')') {
-        let content = &input[1..pos]; // Skip opening paren
-        if content.contains(&b':') {
-            struct_type(input)
-        } else {
-            enum_type(input)
-        }
-    } else {
-        Err(ErrMode::Backtrack(ParserError::from_input(input)))
-    }
+    alt((struct_type, enum_type)).parse_next(input)
 }
 
 /// Parse an element type (primitive, custom, or inline).
